@@ -434,7 +434,7 @@ func runLingeringCondition(a args, idx int) {
 	os.MkdirAll(dir, 0o755)
 	defer os.RemoveAll(dir)
 	script := dir + "/cond.sh"
-	os.WriteFile(script, []byte(fmt.Sprintf("#!/bin/sh\n(sleep 40 & echo $! >> '%s/pids') \nexit 0\n", dir)), 0o755)
+	h.WriteExec(script, []byte(fmt.Sprintf("#!/bin/sh\n(sleep 40 & echo $! >> '%s/pids') \nexit 0\n", dir)), 0o755)
 	defer func() {
 		for _, f := range strings.Fields(h.ReadFile(dir + "/pids")) {
 			if p, e := strconv.Atoi(f); e == nil && p > 1 {
@@ -496,7 +496,7 @@ func runTimeoutDep(a args, idx int) {
 	default:
 		script = fmt.Sprintf("trap '' INT\nprintf 'TICK\\n' >> '%s'\nsleep 1.2\nprintf 'LATE\\n' >> '%s'\n", trace, trace)
 	}
-	os.WriteFile(dir+"/dep.sh", []byte(script), 0o755)
+	h.WriteExec(dir+"/dep.sh", []byte(script), 0o755)
 	body := fmt.Sprintf("sh '%s/dep.sh'", dir)
 	dep := task.FromCommands(body)
 	dep.Name = "dep"
